@@ -605,6 +605,11 @@ def ghost_zero_key():
     _symbolic_only()
 
 
+def sort_source(sorted_seq, p):
+    """position, in the sequence that was sorted, of the element now at position p"""
+    _symbolic_only()
+
+
 def kat(lst, i):
     """i-th entry of a list of key tuples"""
     _symbolic_only()
